@@ -156,7 +156,10 @@ def deterministic_oracles(ctx, rng):
                        'gumbel.sample:raises')
     # (iii) tiny batches: sample(1) / sample(2) under many seeds; every row must invert the recorded draws
     for fam in B.FAMS:
-        for th in B.theta_grid(fam)[-2:]:
+        # strong dependence (the last two grid values) and very weak but non-zero dependence, where a shortcut for
+        # "practically independent" parameters would replace the conditional inverse
+        weak = {'clayton': [2e-6, 1e-3, 0.02], 'gumbel': [1.0000001, 1.001, 1.02, 1.045], 'frank': [1e-3, -0.02]}[fam]
+        for th in B.theta_grid(fam)[-2:] + weak:
             if fam == 'gumbel' and th > 3:
                 th = 3.0
             cobj = B.make(fam, th, B.tau_of(fam, th))
